@@ -65,7 +65,7 @@ import dataclasses  # noqa: E402
 import types  # noqa: E402
 
 
-def scan_process_globals() -> list[str]:
+def scan_process_globals() -> list[str]:  # dataclass defaults; containers are listed by _SNAP
     """Find mutable objects that are shared process-wide by the modules under test:
     dataclass field defaults that are instances of cfdppy classes / containers."""
     found = []
@@ -93,9 +93,67 @@ def _is_enum(o) -> bool:
     return isinstance(o, enum.Enum)
 
 
+# Import-time snapshot of every module-level and class-level mutable container of the modules under test. A change
+# to cfdp-py that introduces process-wide state (a module-level table that is extended in place, a class attribute
+# list shared by all instances, a default table assigned without copying) must not make run n depend on runs
+# 1..n-1 of the same worker: every run starts from the import-time state, exactly like a freshly started process.
+# Within a run nothing is restored, so sharing between the transactions and handler objects of one run stays visible.
+_SNAP: list = []
+
+
+def _snapshot_process_globals() -> None:
+    import copy
+
+    seen = set()
+    for name, mod in sorted(sys.modules.items()):
+        if not (name == "cfdppy" or name.startswith("cfdppy.")) or mod is None:
+            continue
+        holders = [(name, mod)]
+        for attr, obj in sorted(vars(mod).items()):
+            if isinstance(obj, type) and getattr(obj, "__module__", None) == name and not _is_enum_cls(obj):
+                holders.append((f"{name}.{attr}", obj))
+        for hname, holder in holders:
+            for attr, obj in sorted(vars(holder).items()):
+                if attr.startswith("__") or id(obj) in seen:
+                    continue
+                if isinstance(obj, (list, dict, set, bytearray)):
+                    seen.add(id(obj))
+                    try:
+                        _SNAP.append((f"{hname}.{attr}", obj, copy.deepcopy(obj)))
+                    except Exception:  # noqa: BLE001
+                        pass
+
+
+def _is_enum_cls(o) -> bool:
+    import enum
+
+    return isinstance(o, type) and issubclass(o, enum.Enum)
+
+
+def _restore_process_globals() -> None:
+    import copy
+
+    for _name, obj, snap in _SNAP:
+        try:
+            if obj == snap:
+                continue
+            if isinstance(obj, (list, bytearray)):
+                obj[:] = copy.deepcopy(snap)
+            elif isinstance(obj, dict):
+                obj.clear()
+                obj.update(copy.deepcopy(snap))
+            elif isinstance(obj, set):
+                obj.clear()
+                obj.update(snap)
+        except Exception:  # noqa: BLE001
+            pass
+
+
 def reset_process_globals() -> None:
     """A run models a freshly started process (DESIGN 2.9)."""
     import cfdppy.handler.dest as d
+
+    _restore_process_globals()
 
     for f in dataclasses.fields(d._AckedModeParams):
         if f.name == "lost_seg_tracker" and f.default is not dataclasses.MISSING:
@@ -106,3 +164,15 @@ def reset_process_globals() -> None:
     cls_default = d._AckedModeParams.__dict__.get("lost_seg_tracker")
     if cls_default is not None and hasattr(cls_default, "reset"):
         cls_default.reset()
+
+
+import cfdppy.handler.source  # noqa: E402,F401
+import cfdppy.handler.dest  # noqa: E402,F401
+import cfdppy.handler.common  # noqa: E402,F401
+import cfdppy.filestore  # noqa: E402,F401
+import cfdppy.mib  # noqa: E402,F401
+import cfdppy.request  # noqa: E402,F401
+import cfdppy.user  # noqa: E402,F401
+import cfdppy.crc  # noqa: E402,F401
+
+_snapshot_process_globals()
